@@ -45,6 +45,7 @@ ORDERS = [("clean",), ("knot_clean", "degree_clean"), ("degree_clean", "knot_cle
 def configs(tier, seed):
     cfgs = []
     famy = [c for c in fam.pattern_family(range(1, 4), 2, seed=seed) if all(m <= c[0] for m in c[1][1:-1])]
+    famy = [(0, [1, 1]), (0, [1, 1, 1])] + famy  # constant and piecewise constant curves (jumps at the interior knots)
     if tier == "quick":
         famy = [c for i, c in enumerate(famy) if len(c[1]) <= 3 or (i + seed) % 4 == 0]
     hl = 2 if tier == "quick" else 3
